@@ -230,7 +230,9 @@ def check_wellformed(cx, o, label):
     # "sorted unique chain names": the Monte-Carlo chain names; covariance-input names are appended by the library
     ok &= cx.expect(len(o.names) == len(set(o.names)) and mc == sorted(mc) and all(isinstance(n, str) for n in o.names),
                     label + ':names-sorted-unique', str(o.names))
-    ok &= cx.expect(cov <= set(o.names) and set(mc) == set(o.idl.keys()) == set(o.deltas.keys()) == set(o.shape.keys()) == set(o.r_values.keys()),
+    # every Monte-Carlo chain has its configuration list, fluctuations, length and mean; entries beyond the chains may only belong to covariance inputs
+    ok &= cx.expect(cov <= set(o.names) and all(set(mc) <= set(d.keys()) and set(d.keys()) - set(mc) <= cov for d in (o.idl, o.shape)) and
+                    set(mc) == set(o.deltas.keys()) == set(o.r_values.keys()),
                     label + ':name-sets', '%s %s %s' % (o.names, list(o.idl), list(cov)))
     tot = 0
     for n in mc:
